@@ -447,7 +447,7 @@ use std::sync::Mutex;
 
 const SLOTS: usize = 64;
 static WATCH_START: [AtomicU64; SLOTS] = [const { AtomicU64::new(0) }; SLOTS];
-static WATCH_DESC: Mutex<Vec<String>> = Mutex::new(Vec::new());
+static WATCH_DESC: [Mutex<String>; SLOTS] = [const { Mutex::new(String::new()) }; SLOTS];
 static NEXT_SLOT: AtomicU64 = AtomicU64::new(0);
 thread_local! {
     static MY_SLOT: usize = (NEXT_SLOT.fetch_add(1, AO::Relaxed) as usize) % SLOTS;
@@ -463,13 +463,21 @@ fn now_ms() -> u64 {
 pub fn watch_enter(desc: impl FnOnce() -> String) {
     MY_SLOT.with(|s| {
         let d = desc();
-        if let Ok(mut v) = WATCH_DESC.lock() {
-            if v.len() < SLOTS {
-                v.resize(SLOTS, String::new());
-            }
-            v[*s] = d;
+        if let Ok(mut v) = WATCH_DESC[*s].lock() {
+            *v = d;
         }
         WATCH_START[*s].store(now_ms(), AO::Relaxed);
+    });
+}
+
+/// Sets the description of the case the calling thread works on without arming the timer
+/// (for harnesses whose poll loop arms it per poll).
+pub fn watch_describe(desc: impl FnOnce() -> String) {
+    MY_SLOT.with(|s| {
+        let d = desc();
+        if let Ok(mut v) = WATCH_DESC[*s].lock() {
+            *v = d;
+        }
     });
 }
 
@@ -487,6 +495,16 @@ pub fn watch_exit() {
 /// process that holds more than `max_bytes` is reported as a violation (with the description of
 /// the running case) and the process exits with status 1 - a hung check would be no verdict.
 pub fn start_watchdog(property: &str, verif_dir: &str, max_secs: u64, max_bytes: isize) {
+    start_watchdog_mode(property, verif_dir, max_secs, max_bytes, true)
+}
+
+/// `hang_is_violation`: whether termination / bounded allocation is part of the property under
+/// check. Otherwise a call that does not return is a machinery exit (no verdict), never silence.
+pub fn start_watchdog_mode(property: &str, verif_dir: &str, max_secs: u64, max_bytes: isize, hang_is_violation: bool) {
+    static STARTED: std::sync::atomic::AtomicBool = std::sync::atomic::AtomicBool::new(false);
+    if STARTED.swap(true, AO::SeqCst) {
+        return;
+    }
     let property = property.to_string();
     let verif_dir = verif_dir.to_string();
     std::thread::spawn(move || loop {
@@ -515,7 +533,11 @@ pub fn start_watchdog(property: &str, verif_dir: &str, max_secs: u64, max_bytes:
             }
         }
         if let Some((i, why)) = culprit {
-            let desc = WATCH_DESC.lock().map(|v| v.get(i).cloned().unwrap_or_default()).unwrap_or_default();
+            let desc = WATCH_DESC[i].lock().map(|v| v.clone()).unwrap_or_default();
+            if !hang_is_violation {
+                eprintln!("MACHINERY: {why}: a call into the code under test did not return within {max_secs} s of wall-clock time (no verdict for {property}; termination is the subject of C02/C05/C06/C10)\ncase: {desc}");
+                std::process::exit(EXIT_MACHINERY);
+            }
             let key = format!("watchdog/{desc}");
             let _ = std::fs::create_dir_all(format!("{verif_dir}/replays"));
             let path = format!("{verif_dir}/replays/{property}-{:016x}.json", h64(&key));
